@@ -402,6 +402,9 @@ CONTROLS = [
     ("ctl_static_db_thread", "let d2 = db.clone(); std::thread::spawn(move || { let tx = d2.tx(true).unwrap(); let b = tx.get_or_create_bucket(\"t\").unwrap(); b.put(\"a\", \"b\").unwrap(); drop(b); tx.commit().unwrap(); }).join().unwrap();"),
     ("ctl_reopen_bucket_by_name", "let tx = db.tx(false).unwrap(); let b = tx.get_bucket(\"b\").unwrap(); for (name, _sub) in b.buckets() { let again = b.get_bucket(&name).unwrap(); sink(&again); }"),
     ("ctl_owned_args", "let tx = db.tx(true).unwrap(); let b = tx.get_or_create_bucket(\"b\").unwrap(); { let k = String::from(\"owned\"); b.put(k.clone(), vec![1u8, 2, 3]).unwrap(); b.put(7u64.to_be_bytes(), k).unwrap(); } drop(b); tx.commit().unwrap();"),
+    ("ctl_range_computed_bounds", "let tx = db.tx(false).unwrap(); let b = tx.get_bucket(\"b\").unwrap(); let first = { let lo = format!(\"k{}\", 0); let hi = format!(\"k{}\", 9); b.range(lo.as_bytes()..hi.as_bytes()).next() }; sink(&first); let inc = { let hi = String::from(\"k5\"); b.range(..=hi.as_bytes()).to_kv_pairs().last() }; sink(&inc);"),
+    ("ctl_seek_computed_key", "let tx = db.tx(false).unwrap(); let b = tx.get_bucket(\"b\").unwrap(); let mut c = b.cursor(); { let k = format!(\"k{}\", 3); c.seek(k.as_str()); } let d = c.next(); sink(&d);"),
+    ("ctl_get_computed_key", "let tx = db.tx(false).unwrap(); let b = tx.get_bucket(\"b\").unwrap(); let v = { let k = format!(\"k{}\", 1); b.get(k.as_str()) }; sink(&v); let kv = { let k = format!(\"k{}\", 2).into_bytes(); b.get_kv(k.as_slice()) }; sink(&kv);"),
     ("ctl_iterate", "let tx = db.tx(false).unwrap(); let b = tx.get_bucket(\"b\").unwrap(); for d in b.cursor() { match d { Data::Bucket(n) => sink(&n.name()), Data::KeyValue(kv) => sink(&kv.kv()) } } for kv in b.range(..).to_kv_pairs() { sink(&kv); }"),
 ]
 
